@@ -11,15 +11,31 @@ from .frontend import AnalysisBroken
 sys.setrecursionlimit(20000)
 
 
+class _TimeBudget(Exception):
+    pass
+
+
+def _alarm(signum, frame):
+    raise _TimeBudget()
+
+
 def run_property(prop, tier, seed, only=None):
+    import signal
     mod = importlib.import_module('hexsa.rules.' + prop.lower())
     rep = report.Report(prop, tier, seed)
+    budget = int(os.environ.get('HEXSA_TIME_BUDGET', '0') or 0) or (3600 if tier == 'thorough' else 1200)
+    signal.signal(signal.SIGALRM, _alarm)
+    signal.alarm(budget)
     try:
         mod.run(rep, tier)
+    except _TimeBudget:
+        # an analysis that does not converge on a changed tree is undecided, never a hang (quick runs take < 30 s on the repaired tree)
+        rep.broken.append('time budget of %d s exceeded: the analysis does not converge on this tree' % budget)
     except AnalysisBroken as e:
         rep.broken.append(str(e))
     except Exception as e:  # an unsupported construct is analysis-broken, never a pass
         rep.broken.append('internal error: %r\n%s' % (e, traceback.format_exc()[-1500:]))
+    signal.alarm(0)
     if only is not None:
         return rep
     if tier == 'thorough' and not os.environ.get('HEXSA_NO_SENSITIVITY') and not rep.broken:
